@@ -159,10 +159,24 @@ class Impl:
         self.real_readlink = os.readlink
         self.real_listdir = os.listdir
         self.stat_cache = {}
+        # round 3: the non-absolute names os.stat refuses in the current case (an unsearchable cwd of the monitor)
+        self.rel_refused = frozenset()
+
+    def set_case(self, case, texts):
+        """per-case file-system switches: with `rel_denied` every NON-absolute link text of the case (NUL-cut, with and
+        without the ' (deleted)' marker) is refused by os.stat"""
+        ref = set()
+        if case.get("rel_denied"):
+            for t in texts:
+                t = t.split(b"\x00")[0]
+                for c in (t, t[:-len(DEL)] if t.endswith(DEL) else t):
+                    if c and not c.startswith(b"/"):
+                        ref.add(c)
+        self.rel_refused = frozenset(ref)
 
     def scripted_stat(self, path_bytes, real_stat):
         """os.stat as the monitor sees it: refused under sec/, scripted for the virtual names"""
-        if path_bytes.startswith(self.sec):
+        if path_bytes.startswith(self.sec) or path_bytes in self.rel_refused:
             raise OSError(errno.EACCES, os.strerror(errno.EACCES), os.fsdecode(path_bytes))
         if path_bytes in self.virtual:
             b = self.virtual[path_bytes]
@@ -177,6 +191,8 @@ class Impl:
 
     # ---- ground truth about the file system, by the harness's own os.stat
     def classify(self, path_bytes):
+        if path_bytes in self.rel_refused:
+            return "denied"
         if path_bytes in self.stat_cache:
             return self.stat_cache[path_bytes]
         r = "none"
@@ -266,6 +282,9 @@ class Impl:
                     plan["readlink_text"][fdpath] = text.decode("utf-8", "surrogateescape")
                 else:
                     os.symlink(text, os.fsencode(fdpath))
+            elif "other" in link:
+                os.symlink("placeholder", fdpath)
+                plan["readlink_err"][fdpath] = int(link["other"])
             else:
                 if link["err"] == "EINVAL":
                     with open(fdpath, "wb"):
@@ -282,6 +301,10 @@ class Impl:
                     # the file opens; its 1st / 2nd read fails (descriptor closed after the open)
                     plan["read_err"][infopath] = (1 if info["read_err"]["second"] else 0,
                                                   getattr(errno, info["read_err"]["errno"]))
+            elif "other" in info:
+                with open(infopath, "wb") as f:
+                    f.write(b"pos:\t0\nflags:\t00\n")
+                plan["open_err"][infopath] = int(info["other"])
             elif info["err"] in ("ESRCH", "EACCES"):
                 with open(infopath, "wb") as f:
                     f.write(b"pos:\t0\nflags:\t00\n")
@@ -331,6 +354,8 @@ class Impl:
             if isinstance(e, (KeyboardInterrupt, SystemExit)):
                 raise
             d = {"kind": "exc", "exc": type(e).__name__}
+            if isinstance(e, OSError) and not isinstance(e, (FileNotFoundError, ProcessLookupError, PermissionError)):
+                d["exc"] = "OSError"      # the model's `Exc.osError`: an OSError none of the code's handlers names
             if isinstance(e, ps.Error) and getattr(e, "pid", PID) != PID:
                 d["wrong_pid"] = e.pid
             return d
@@ -349,7 +374,8 @@ class Impl:
             return got
         return ps.Process(PID)
 
-    def call(self, what, build, dies_at=None, gone_before=False, listdir_err=None, gone_after=False, mode="plain"):
+    def call(self, what, build, dies_at=None, gone_before=False, listdir_err=None, gone_after=False, mode="plain",
+             dies_after_link=False):
         """Run one front-end method in call mode `mode`, with the OS entry points patched according
         to the plan returned by `build()` (which lays the case's world down under /proc/<pid>)."""
         ps = self.ps
@@ -373,15 +399,22 @@ class Impl:
         def fake_readlink(path, *a, **kw):
             sp = os.fsdecode(path) if isinstance(path, bytes) else path
             if isinstance(sp, str) and sp.startswith(fd_dir + "/"):
-                if dies_at is not None and state["reads"] == dies_at:
+                kill_now = dies_at is not None and state["reads"] == dies_at
+                if kill_now and not dies_after_link:
                     shutil.rmtree(base, ignore_errors=True)
                 state["reads"] += 1
-                if os.path.lexists(base):
-                    if sp in plan["readlink_err"]:
-                        en = plan["readlink_err"][sp]
-                        raise OSError(en, os.strerror(en), sp)
-                    if sp in plan["readlink_text"]:
-                        return plan["readlink_text"][sp]
+                try:
+                    if os.path.lexists(base):
+                        if sp in plan["readlink_err"]:
+                            en = plan["readlink_err"][sp]
+                            raise OSError(en, os.strerror(en), sp)
+                        if sp in plan["readlink_text"]:
+                            return plan["readlink_text"][sp]
+                    return real_readlink(path, *a, **kw)
+                finally:
+                    if kill_now and dies_after_link:
+                        # the process goes away right AFTER this link was answered
+                        shutil.rmtree(base, ignore_errors=True)
             return real_readlink(path, *a, **kw)
 
         def fake_listdir(path=".", *a, **kw):
@@ -528,10 +561,18 @@ def table_line(impl, case):
             k = {"t": "relative", "target": rel_target(k, root).hex()}
         fds.append({"n": d["n"], "kind": k, "pos": d["pos"], "flags": d["flags"], "tail": d.get("tail", ""),
                     "closes": d.get("closes"), "denied": d.get("denied")})
+    for d in fds:      # the texts the kernel prints for the non-path kinds (refusable when `rel_denied`)
+        k = d["kind"]
+        if k["t"] == "anon":
+            texts.append(b"anon_inode:" + bytes.fromhex(k["name"]))
+        elif k["t"] in ("socket", "pipe"):
+            texts.append(b"%s:[%d]" % (k["t"].encode(), k["ino"]))
+    impl.set_case(case, texts)
     files, others, denied = impl.fs_view(texts)
     return {"op": "table", "fds": fds, "files": files, "others": others, "denied": denied,
             "gone_before": bool(case.get("gone_before")), "dies_at": case.get("dies_at"),
-            "zombie": bool(case.get("zombie")), "dir_denied": bool(case.get("dir_denied"))}
+            "dies_after_link": bool(case.get("dies_after_link")),
+            "zombie": bool(case.get("zombie")), "dir_denied": bool(case.get("dir_denied")), "_texts": [t.hex() for t in texts]}
 
 
 def raw_line(impl, case):
@@ -545,8 +586,9 @@ def raw_line(impl, case):
         if "ok" in link:
             texts.append(bytes.fromhex(link["ok"]))
         entries.append({"name": e["name"], "link": link, "info": e["info"]})
+    impl.set_case(case, texts)
     files, others, denied = impl.fs_view(texts)
-    return {"op": "raw", "listdir": case.get("listdir", "ok"), "alive": not case.get("gone_after", False),
+    return {"op": "raw", "_texts": [t.hex() for t in texts], "listdir": case.get("listdir", "ok"), "alive": not case.get("gone_after", False),
             "zombie": bool(case.get("zombie")),
             "entries": entries, "files": files, "others": others, "denied": denied}
 
@@ -590,6 +632,7 @@ def eval_table(impl, case, out):
     for what in ("open_files", "num_fds"):
         obs[what] = impl.call(what, lambda: impl.build_proc(entries, zombie=zombie),
                               dies_at=dies if what == "open_files" else None,
+                              dies_after_link=bool(case.get("dies_after_link")),
                               gone_before=bool(case.get("gone_before")),
                               listdir_err=errno.EACCES if case.get("dir_denied") else None, mode=mode)
     if dies is not None and not case.get("dir_denied") and not case.get("gone_before"):
@@ -662,7 +705,8 @@ def run_tables(ctx, impl, cases, res, tag="table"):
         return 0
     lines = [table_line(impl, c) for c in cases]
     outs = ctx.driver().batch(lines)
-    for c, o in zip(cases, outs):
+    for c, l, o in zip(cases, lines, outs):
+        impl.set_case(c, [bytes.fromhex(t) for t in l["_texts"]])
         im, mo, sp = eval_table(impl, c, o)
         feats = table_features(c, o)
         for f in feats:
@@ -696,6 +740,7 @@ def run_raws(ctx, impl, cases, res):
     for c, l, o in zip(cases, lines, outs):
         if "bad" in o:
             raise RuntimeError("driver rejected %r: %s" % (c, o))
+        impl.set_case(c, [bytes.fromhex(t) for t in l["_texts"]])
         im = eval_raw(impl, c, l)
         mode = c.get("mode", "plain")
         k = o["model"]["open_files"]
@@ -705,6 +750,12 @@ def run_raws(ctx, impl, cases, res):
         res.count("family:raw:" + c.get("family", "raw"))
         res.case(("raw", c), nontrivial=True)
         sp = o.get("spec")
+        if sp is None and c.get("expect") is not None:
+            # characterisation corpus (theorems C14_readlink_other_errno / C14_readlink_eio_propagates): the proved answer
+            sp = c["expect"]
+            if sp != o["model"]:
+                raise RuntimeError("corpus expectation %r differs from the model %r on %r" % (sp, o["model"], c))
+            res.count("raw:characterisation")
         if sp is not None:
             sp = {w: adapt(mode, v) for w, v in sp.items()}
             res.count("raw:with-spec")
@@ -820,7 +871,15 @@ def table_features(case, out):
     if sp_exc(out) == "AccessDenied":
         f.add("spec-AccessDenied")
     if case.get("dies_at") is not None and case["dies_at"] < len(case["fds"]):
-        f.add("dies-during-scan")
+        f.add("dies-after-link" if case.get("dies_after_link") else "dies-during-scan")
+        if case.get("dies_after_link") and out["spec"]["open_files"]["kind"] == "ok":
+            f.add("death-unnoticed(full list)")
+    if case.get("rel_denied"):
+        f.add("rel-denied")
+    if len(case["fds"]) >= 300:
+        f.add("descriptors>=300")
+    if len(case["fds"]) >= 2000:
+        f.add("descriptors>=2000")
     sp = out["spec"]["open_files"]
     if sp["kind"] == "ok" and sp["value"]:
         f.add("lists-something")
@@ -979,6 +1038,10 @@ def gen_table(rng, family):
         case["gone_before"] = True
     if family == "dies":
         case["dies_at"] = rng.randrange(0, n + 2)
+    if case["dies_at"] is not None and rng.random() < 0.5:
+        case["dies_after_link"] = True      # round 3: death between the readlink and the fdinfo of descriptor k
+    if rng.random() < 0.15:
+        case["rel_denied"] = True           # round 3: os.stat of every non-absolute link text is refused
     return case
 
 
@@ -1035,6 +1098,14 @@ BAD_INFOS = [b"", b"pos:\t5\n", b"pos:\n", b"pos:\t5\nflags:\n", b"pos:\tx\nflag
              b"pos:\t1.5\nflags:\t02\n", b"pos:\t5\nflags:\t0x2\n"]
 
 
+def other_err(en):
+    """an errno none of the handlers of open_files names, with the OSError subclass CPython raises for it"""
+    return {"other": en, "cls": type(OSError(en, "x")).__name__.encode().hex()}
+
+
+OTHER_ERRNOS = [errno.EIO, errno.ENOTDIR, errno.ELOOP, errno.EBADF, errno.EMFILE, errno.ENOMEM, errno.EISDIR, errno.EINTR]
+
+
 def gen_raw(rng):
     n = rng.randrange(1, 7)
     entries = []
@@ -1049,12 +1120,15 @@ def gen_raw(rng):
             link = {"sym": P(rng.choice(POOL_FILES[:7]))}
         elif link_r < 0.6:
             link = {"sym": P(rng.choice(POOL_FILES[:7])), "suffix": rng.choice([b"\x00garbage", b"\x00 (deleted)", b" (deleted)", b" (deleted)\x00x"]).hex()}
-        elif link_r < 0.7:
+        elif link_r < 0.66:
             link = {"err": rng.choice(["EINVAL", "ENAMETOOLONG"])}
+        elif link_r < 0.7:
+            link = other_err(rng.choice(OTHER_ERRNOS))
         elif link_r < 0.8:
             link = {"err": rng.choice(["ENOENT", "ESRCH", "ENOENT", "ESRCH", "EACCES"])}
         elif link_r < 0.9:
-            link = {"ok": rng.choice([b"socket:[5]", b"/dev/null", b"pipe:[1]", b"rel/path", b"/", b"/\x00x"]).hex()}
+            link = {"ok": rng.choice([b"socket:[5]", b"/dev/null", b"pipe:[1]", b"rel/path", b"/", b"/\x00x", b"(unreachable)/x (deleted)",
+                                      b"rel (deleted)", b"anon_inode:x (deleted)\x00y"]).hex()}
         elif link_r < 0.96:
             link = {"sym": P(rng.choice(POOL_MISSING))}
         else:
@@ -1064,14 +1138,18 @@ def gen_raw(rng):
             info = {"ok": rng.choice(BAD_INFOS).hex()}
         elif ir < 0.85:
             info = {"ok": (b"pos:\t%d\nflags:\t0%o\n" % (gen_pos(rng), gen_flags(rng))).hex()}
-        else:
+        elif ir < 0.97:
             info = {"err": rng.choice(["ENOENT", "ESRCH", "ENOENT", "ESRCH", "EACCES"])}
+        else:
+            info = other_err(rng.choice(OTHER_ERRNOS))
         if "ok" in info and rng.random() < 0.15:
             info["read_err"] = {"second": rng.random() < 0.5, "errno": rng.choice(["ENOENT", "ESRCH"])}
         entries.append({"name": name.hex(), "link": link, "info": info})
     case = {"family": "malformed", "entries": entries, "mode": pick_mode(rng)}
     if rng.random() < 0.2:
         case["zombie"] = True
+    if rng.random() < 0.15:
+        case["rel_denied"] = True
     r = rng.random()
     if r < 0.08:
         case["listdir"] = rng.choice(["ENOENT", "ESRCH", "EACCES"])
@@ -1151,7 +1229,7 @@ def gen_io(rng, family):
 
 
 # ---- exhaustive line shapes over a tiny token alphabet ("tolerating blank or malformed extra lines")
-IO_TOKENS = [b"syscr", b"xtra", b": ", b":", b" ", b"9", b"-", b"+", b"_"]
+IO_TOKENS = [b"syscr", b"xtra", b": ", b":", b" ", b"9", b"-", b"+", b"_", b"\r"]
 IO_KERNEL_LINES = [b"rchar: 1", b"wchar: 2", b"syscr: 3", b"syscw: 4", b"read_bytes: 5", b"write_bytes: 6",
                    b"cancelled_write_bytes: 7"]
 _NAMES = ["read_count", "write_count", "read_bytes", "write_bytes", "read_chars", "write_chars"]
@@ -1180,7 +1258,7 @@ def io_shape_case(tokens, variant, mode="plain"):
             "file": {"ok": b"".join(l + b"\n" for l in lines).hex()}, "alive": True}
 
 
-IO_TOKENS_CORE = [b"syscr", b": ", b" ", b"9", b"-", b"+", b"_"]
+IO_TOKENS_CORE = [b"syscr", b": ", b" ", b"9", b"-", b"+", b"_", b"\r"]
 
 
 def io_shape_sweep(maxlen, variants=("after", "before", "instead"), alphabet=None, minlen=1):
@@ -1220,6 +1298,12 @@ IO_RAW = [
     ("esrch-on-open-zombie", {"file": {"err": "ESRCH"}, "alive": True, "zombie": True}),
     ("missing-file-zombie", {"file": {"err": "ENOENT"}, "alive": True, "zombie": True}),
     ("read-esrch-zombie", {"file": {"ok": b"rchar: 1\nwchar: 2\n".hex(), "read_err": {"at": 1, "errno": "ESRCH"}}, "alive": True, "zombie": True}),
+    # round 3, audit item 7: a lone \r INSIDE a line does not end the line (`for line in f` on a binary file splits at \n only)
+    ("cr-inside-value", {"file": {"ok": b"rchar: 1\nwchar: 2\nsyscr: 3\nsyscw: 4\nread_bytes: 5\nwrite_bytes: 6\nsyscr: 9\rx\n".hex()}, "alive": True}),
+    ("cr-before-counter", {"file": {"ok": b"rchar: 1\nwchar: 2\nsyscr: 3\nsyscw: 4\nread_bytes: 5\nwrite_bytes: 6\nx\rsyscr: 9\n".hex()}, "alive": True}),
+    ("cr-between-sep-and-value", {"file": {"ok": b"rchar: 1\nwchar: 2\nsyscr: 3\nsyscw: 4\nread_bytes: 5\nwrite_bytes: 6\nsyscr: \r9\n".hex()}, "alive": True}),
+    ("cr-only-syscr-line", {"file": {"ok": b"rchar: 1\nwchar: 2\nx\rsyscr: 3\nsyscw: 4\nread_bytes: 5\nwrite_bytes: 6\n".hex()}, "alive": True}),
+    ("vt-ff-inside-line", {"file": {"ok": b"rchar: 1\nwchar: 2\nsyscr: 3\nsyscw: 4\nread_bytes: 5\nwrite_bytes: 6\nsyscw: 8\x0bx\x0csyscr: 9\n".hex()}, "alive": True}),
     ("kernel-file-zombie", {"file": {"ok": b"rchar: 1\nwchar: 2\nsyscr: 3\nsyscw: 4\nread_bytes: 5\nwrite_bytes: 6\ncancelled_write_bytes: 0\n".hex()}, "alive": True, "zombie": True}),
 ]
 
@@ -1307,7 +1391,81 @@ def corpus_tables():
             {"n": 8, "kind": {"t": "regular", "path": P(b"sub/nl\n"), "deleted": True}, "pos": 3, "flags": 2, "tail": "", "closes": None},
             {"n": 9, "kind": {"t": "device", "path": P(b"dir (deleted)")}, "pos": 0, "flags": 0, "tail": "", "closes": None}],
          "gone_before": False, "dies_at": None},
+        # ---- round 3
+        # audit item 4: os.stat of every non-absolute link text is refused (unsearchable cwd of the monitor): sockets, pipes,
+        # anon inodes and relative targets are never stat'ed → the call succeeds and lists the regular file
+        {"family": "corpus-rel-denied", "rel_denied": True, "gone_before": False, "dies_at": None, "fds": [
+            {"n": 3, "kind": {"t": "socket", "ino": 7}, "pos": 0, "flags": 2, "tail": "", "closes": None},
+            {"n": 4, "kind": {"t": "pipe", "ino": 1}, "pos": 0, "flags": 1, "tail": "", "closes": None},
+            {"n": 5, "kind": {"t": "anon", "name": b"[eventfd]".hex()}, "pos": 0, "flags": 2, "tail": "", "closes": None},
+            {"n": 6, "kind": {"t": "relative", "target_sym": P(b"f0")}, "pos": 0, "flags": 0, "tail": "", "closes": None},
+            {"n": 7, "kind": {"t": "relative", "target": b"(unreachable)/x".hex()}, "pos": 0, "flags": 0, "tail": "", "closes": None},
+            {"n": 8, "kind": {"t": "relative", "target": b"net:[4026531840]".hex()}, "pos": 0, "flags": 0, "tail": "", "closes": None},
+            {"n": 9, "kind": reg, "pos": 11, "flags": 0o100002, "tail": "", "closes": None}]},
+        # … the one exception (theorem C14_nonabsolute_marker_lookup): a non-absolute text ending in ' (deleted)' is looked up
+        {"family": "corpus-rel-denied-marker", "rel_denied": True, "gone_before": False, "dies_at": None, "fds": [
+            {"n": 3, "kind": reg, "pos": 1, "flags": 2, "tail": "", "closes": None},
+            {"n": 4, "kind": {"t": "relative", "target": b"(unreachable)/x (deleted)".hex()}, "pos": 0, "flags": 0, "tail": "", "closes": None}]},
+        {"family": "corpus-rel-denied-marker-anon", "rel_denied": True, "gone_before": False, "dies_at": None, "fds": [
+            {"n": 4, "kind": {"t": "anon", "name": b"x (deleted)".hex()}, "pos": 0, "flags": 0, "tail": "", "closes": None},
+            {"n": 5, "kind": reg, "pos": 1, "flags": 2, "tail": "", "closes": None}]},
+        # audit item 6: the process dies right after the link of descriptor k was read
+        {"family": "corpus-dies-after-link", "gone_before": False, "dies_at": 1, "dies_after_link": True, "fds": [
+            {"n": 3, "kind": reg, "pos": 1, "flags": 2, "tail": "", "closes": None},
+            {"n": 4, "kind": reg, "pos": 1, "flags": 1, "tail": "", "closes": None}]},
+        {"family": "corpus-dies-after-link-more-to-come", "gone_before": False, "dies_at": 0, "dies_after_link": True, "fds": [
+            {"n": 3, "kind": {"t": "socket", "ino": 7}, "pos": 0, "flags": 2, "tail": "", "closes": None},
+            {"n": 4, "kind": reg, "pos": 1, "flags": 1, "tail": "", "closes": None}]},
+        {"family": "corpus-dies-after-last-link-unnoticed", "gone_before": False, "dies_at": 1, "dies_after_link": True, "fds": [
+            {"n": 3, "kind": reg, "pos": 1, "flags": 2, "tail": "", "closes": None},
+            {"n": 4, "kind": {"t": "socket", "ino": 7}, "pos": 0, "flags": 2, "tail": "", "closes": None}]},
+        {"family": "corpus-dies-after-last-link-hit-earlier", "gone_before": False, "dies_at": 2, "dies_after_link": True, "fds": [
+            {"n": 3, "kind": reg, "pos": 1, "flags": 2, "tail": "", "closes": {"stage": "fdinfo", "errno": "ENOENT"}},
+            {"n": 4, "kind": reg, "pos": 1, "flags": 2, "tail": "", "closes": None},
+            {"n": 5, "kind": {"t": "device", "path": A("/dev/null")}, "pos": 0, "flags": 2, "tail": "", "closes": None}]},
+        # audit item 1: what the link text cannot tell (theorems C14_unlinked_open_file_not_listed, C14_recreated_name_listed,
+        # C14_deleted_nonregular_false_positive — the last one is outside the well-formed class: model only)
+        {"family": "corpus-unlinked-open-file", "gone_before": False, "dies_at": None, "fds": [
+            {"n": 3, "kind": {"t": "regular", "path": P(b"gone.txt"), "deleted": True}, "pos": 5, "flags": 2, "tail": "", "closes": None}]},
+        {"family": "corpus-recreated-name", "gone_before": False, "dies_at": None, "fds": [
+            {"n": 3, "kind": {"t": "regular", "path": P(b"f0"), "deleted": True}, "pos": 5, "flags": 2, "tail": "", "closes": None}]},
+        {"family": "corpus-deleted-nonregular-false-positive", "gone_before": False, "dies_at": None, "fds": [
+            {"n": 3, "kind": {"t": "device", "path": P(b"f0 (deleted)")}, "pos": 0, "flags": 2, "tail": "", "closes": None}]},
     ]
+
+
+def big_tables():
+    """audit item 3: descriptor tables far beyond any plausible cap (300 and 2000 descriptors, every kind, every 7th one
+    closing), so that `files[:256]`, `min(len(...), 1024)`, an early `break` … have a failing input"""
+    def table(n):
+        fds = []
+        for i in range(n):
+            r = i % 10
+            if r in (0, 1, 2, 3):
+                kind = {"t": "regular", "path": P(POOL_FILES[i % 7]), "deleted": False}
+            elif r == 4:
+                kind = {"t": "socket", "ino": 1000 + i}
+            elif r == 5:
+                kind = {"t": "pipe", "ino": 5000 + i}
+            elif r == 6:
+                kind = {"t": "device", "path": A("/dev/null")}
+            elif r == 7:
+                kind = {"t": "anon", "name": b"[eventpoll]".hex()}
+            elif r == 8:
+                kind = {"t": "regular", "path": P(b"gone.txt"), "deleted": True}
+            else:
+                kind = {"t": "relative", "target": b"net:[4026531840]".hex()}
+            closes = {"stage": ["readlink", "fdinfo", "fdinfo_read"][i % 3], "errno": ["ENOENT", "ESRCH"][i % 2], "second": bool(i % 4 == 0)} \
+                if i % 7 == 6 else None
+            if closes and closes["stage"] != "fdinfo_read":
+                closes.pop("second")
+            fds.append({"n": i, "kind": kind, "pos": i * 4096, "flags": [0o100000, 0o100001, 0o102002, 0o100003][i % 4],
+                        "tail": "", "closes": closes})
+        return {"family": "corpus-%d-descriptors" % n, "fds": fds, "gone_before": False, "dies_at": None}
+    t300, t2000 = table(300), table(2000)
+    return [dict(t300, mode="plain"), dict(t300, mode="oneshot", pair=True, family="pair:corpus-300-descriptors"),
+            dict(t300, mode="iter2"), dict(t2000, mode="plain"),
+            dict(t2000, mode="plain", dies_at=1999, dies_after_link=True, family="corpus-2000-dies-after-last-link")]
 
 
 def corpus_raws():
@@ -1324,6 +1482,14 @@ def corpus_raws():
                     "entries": [{"name": b"4".hex(), "link": {"sym": P(b"f0")}, "info": {"err": "EACCES"}}, e]})
         out.append({"family": "corpus-raw-eacces-exists", "zombie": zombie,
                     "entries": [e, {"name": b"5".hex(), "link": {"sym": P(b"sec/x (deleted)")}, "info": e["info"]}]})
+    # round 3, audit item 5: os.readlink / the open of fdinfo failing with an errno no handler names. Proved answers
+    # (C14_readlink_other_errno, C14_readlink_eio_propagates): EINVAL / ENAMETOOLONG skip the descriptor, every other errno
+    # leaves the call as an OSError — nothing is silently dropped
+    for en in OTHER_ERRNOS:
+        out.append({"family": "corpus-raw-readlink-errno-%s" % errno.errorcode[en], "entries": [e, {"name": b"4".hex(), "link": other_err(en), "info": e["info"]}],
+                    "expect": {"open_files": {"kind": "exc", "exc": "OSError"}, "num_fds": {"kind": "ok", "value": 2}}})
+        out.append({"family": "corpus-raw-fdinfo-errno-%s" % errno.errorcode[en], "entries": [{"name": b"4".hex(), "link": {"sym": P(b"f0")}, "info": other_err(en)}, e],
+                    "expect": {"open_files": {"kind": "exc", "exc": "OSError"}, "num_fds": {"kind": "ok", "value": 2}}})
     return out
 
 
@@ -1369,7 +1535,7 @@ def correspond(ctx, res):
         base_corpus = corpus_tables()
         kp = kind_prefix_sweep()
         res.extra["kind_x_prefix_tables"] = len(kp)
-        tables = [dict(c, mode=m, family=c["family"]) for m in MODES for c in base_corpus] + kp + sweep
+        tables = [dict(c, mode=m, family=c["family"]) for m in MODES for c in base_corpus] + kp + sweep + big_tables()
         n = ctx.n(260, 9000)
         for i in range(n):
             tables.append(gen_table(ctx.rng, TABLE_FAMILIES[i % len(TABLE_FAMILIES)]))
